@@ -20,11 +20,11 @@ theorem verified_spec (o : Oracle) (d : Bytes) (r : Res) (h : o.verified d = .ok
   cases ha : o.analyze d with
   | error e => rw [ha] at h; cases h
   | ok r' =>
-    rw [ha, bind_ok] at h
+    rw [ha, c_bind_ok] at h
     cases hr : o.recompress r'.plain r'.corr with
     | error e => rw [hr] at h; cases h
     | ok back =>
-      rw [hr, bind_ok] at h
+      rw [hr, c_bind_ok] at h
       by_cases hsz : r'.size > d.length
       · simp only [hsz, if_true] at h
         split at h <;> (rw [throw_bind] at h; cases h)
@@ -56,7 +56,7 @@ theorem readChunk_write (o : Oracle) (crc : Bytes → Nat) (src : Bytes)
     have hlen : ((src.drop pos).take n).length = n := by
       simp only [List.length_take]; omega
     simp only [List.cons_append, List.nil_append, List.append_assoc, readChunk, if_true,
-      varint_lt n (by omega) _, bind_ok, takeExact_append' n _ rest hlen, Chunk.extent]
+      varint_lt n (by omega) _, c_bind_ok, takeExact_append' n _ rest hlen, Chunk.extent]
   | deflate r =>
     simp only [ChunkOk] at hc
     obtain ⟨hrec, hle⟩ := verified_spec o _ r hc
@@ -65,7 +65,7 @@ theorem readChunk_write (o : Oracle) (crc : Bytes → Nat) (src : Bytes)
     refine ⟨by simp only [Chunk.extent]; omega, _, rfl, by simp, ?_⟩
     intro rest
     simp only [List.cons_append, List.nil_append, readChunk, (by decide : ¬ (1 = 0)), if_false,
-      true_or, if_true, (by decide : ¬ (1 = 2)), pure, Except.pure, bind_ok,
+      true_or, if_true, (by decide : ¬ (1 = 2)), pure, Except.pure, c_bind_ok,
       streamPayload_append, varint_lt _ hp, takeExact_append, varint_lt _ hcl, hrec, Chunk.extent]
   | idat ic r =>
     simp only [ChunkOk] at hc
@@ -84,7 +84,7 @@ theorem readChunk_write (o : Oracle) (crc : Bytes → Nat) (src : Bytes)
       rw [hsz]; exact List.take_length
     simp only [List.cons_append, List.nil_append, readChunk, List.append_assoc, hread,
       (by decide : ¬ (2 = 0)), if_false,
-      or_true, if_true, pure, Except.pure, bind_ok,
+      or_true, if_true, pure, Except.pure, c_bind_ok,
       streamPayload_append, varint_lt _ hp, takeExact_append, varint_lt _ hcl, hrec, Chunk.extent,
       hback, hrecr c' e1 e2 e3]
 theorem readChunks_write (o : Oracle) (crc : Bytes → Nat) (src : Bytes)
@@ -102,7 +102,7 @@ theorem readChunks_write (o : Oracle) (crc : Bytes → Nat) (src : Bytes)
     intro fuel hfuel
     obtain ⟨f, rfl⟩ : ∃ f, fuel = f + 1 := ⟨fuel - 1, by omega⟩
     subst hcov
-    simp only [readChunks, readChunk, bind_ok, List.drop_length]
+    simp only [readChunks, readChunk, c_bind_ok, List.drop_length]
   | cons c cs ih =>
     intro pos hcov
     simp only [Covers] at hcov
@@ -110,11 +110,11 @@ theorem readChunks_write (o : Oracle) (crc : Bytes → Nat) (src : Bytes)
     obtain ⟨hext, a, hwa, hapos, hread⟩ := readChunk_write o crc src hb hf hsize pos c hpos hok
     obtain ⟨w, hww, hrw⟩ := ih _ hrest
     refine ⟨a ++ w, ?_, ?_⟩
-    · simp only [writeChunks, Nat.not_lt.mpr hpos, if_false, hwa, hww, bind_ok]
+    · simp only [writeChunks, Nat.not_lt.mpr hpos, if_false, hwa, hww, c_bind_ok]
     · intro fuel hfuel
       obtain ⟨f, rfl⟩ : ∃ f, fuel = f + 1 := ⟨fuel - 1, by omega⟩
       have hf' : w.length + 1 ≤ f := by simp only [List.length_append] at hfuel; omega
-      simp only [readChunks, hread w, bind_ok, hrw f hf']
+      simp only [readChunks, hread w, c_bind_ok, hrw f hf']
       rw [← List.drop_drop, List.take_append_drop]
 
 end Preflate.Proofs
